@@ -270,7 +270,7 @@ func (c *Cluster) drive(spec *runSpec) {
 func (c *Cluster) stopNow(spec *runSpec) bool {
 	if spec.StopAt != nil {
 		for _, v := range c.violations {
-			if v.Property == spec.StopAt.Property && v.Oracle == spec.StopAt.Oracle {
+			if v.Property == spec.StopAt.Property && v.Oracle == spec.StopAt.Oracle && (spec.StopAt.Key == "" || v.Key == spec.StopAt.Key) {
 				return true
 			}
 		}
